@@ -70,6 +70,12 @@ claim('C10', 'effect-site gates across a closure (captured cells resolved to the
       'verification no fetch, verification, iteration or nil return is reachable and the stored outcomes are exactly that outcome; fetch errors and nil outcomes end the callback with an error; the success exit needs the flag and a non-zero counter. '
       'Holds per callback invocation and for the shared cell, hence for every paging; behaviour of concrete repositories is trusted.', 'DESIGN.md 2/C10')
 
+claim('C11', 'interprocedural ownership/origin analysis of every write on the signing call tree + argument provenance + effect-site gates',
+      'Static, all-paths: every map update, element store and store through a pointer reachable from SignOCI/SignBlob (closures included) targets fresh or signer-owned storage, never storage reachable from the caller\'s options or from the descriptor '
+      'Repository.Resolve returned; Signer.Sign gets merge(resolved descriptor, UserMetadata), PushSignature gets the caller\'s media type, Sign\'s bytes, the resolved descriptor itself as subject and annotations generated from Sign\'s SignerInfo '
+      '(hex sha256 of every chain certificate, signing time); digest pinning on the very string resolved, reserved-prefix and existing-key refusals and the merge error gate precede Sign; the repository is used for exactly one Resolve and one PushSignature. '
+      'Necessary conditions for "signing twice succeeds twice" for every descriptor, metadata map and reference; repository and signer internals are trusted.', 'DESIGN.md 2/C11')
+
 NA_REASON = {}
 
 def main():
